@@ -126,6 +126,10 @@ _compiled = {}
 
 
 def evaluate(ctx, cases):
+    # the composed lexer / literal-decoding / parser model compiles every filter text to the query the implementation compiles it to
+    import jsonpath as _jp
+    from .. import lexcorr
+    lexcorr.run_compile(ctx, _jp.DEFAULT_ENV, [c["text"] for c in cases if c["kind"] in ("expr", "regex", "cmp-fn")] + [c["text"] for c in cases if c["kind"] in ("cmp", "cmp-lit")][::7])
     reqs, meta = [], []
     for c in cases:
         o = _compiled.get(c["text"])
